@@ -14,3 +14,19 @@ Proof. exact unknown_is_error. Qed.
 Theorem C16_names_are_platform_names :
   forall (s : Z) (nm : string), signal_name s = Some nm -> In (nm, s) platform_signals.
 Proof. exact names_are_platform_names. Qed.
+
+Theorem C16_total :
+  forall (st : pstate) (s : Z), emulate st s = if known s then kernel_default s else Error.
+Proof. exact total_spec. Qed.
+
+Theorem C16_context_independent :
+  forall (st st' : pstate) (s : Z), emulate st s = emulate st' s.
+Proof. exact context_independent. Qed.
+
+Theorem C16_never_handler_nor_exit :
+  forall (st : pstate) (s : Z), emulate st s <> HandlerRuns /\ emulate st s <> Exits.
+Proof. exact never_handler_nor_exit. Qed.
+
+Theorem C16_terminated_by_itself :
+  forall (st : pstate) (s t : Z), emulate st s = TerminatedBy t -> t = s.
+Proof. exact terminated_by_itself. Qed.
